@@ -20,6 +20,14 @@ Definition demand_parent (i : binp) : Z :=
   if b_enable_overlays i =? 0 then demand i
   else ((mg i + 1) + 1 + scd_window i) * 2 + lad_window i + lad_window i / mg i + 1.
 
+(* reference-type pools, from the prediction structure: a mini-GOP of 2^hl pictures has 2^hl / 2 reference pictures in flight
+   next to the 8 slots of the decoded-picture buffer (+ 2 in transit); picture analysis keeps one PA reference per picture of
+   the mini-GOP being formed, the next base picture, the 8 past references motion estimation may use, the end-of-stream and
+   scene-change delays, and - when the TPL model reads them - the pictures of the look-ahead window; twice that with overlays *)
+Definition demand_ref (i : binp) : Z := mg i / 2 + 10.
+Definition demand_paref (i : binp) : Z :=
+  ((mg i + 1) + 8 + 1 + scd_window i + (if b_enable_tpl_la i =? 0 then 0 else lad_window i)) * (if b_enable_overlays i =? 0 then 1 else 2).
+
 Definition in_domain (i : binp) : Prop :=
   0 <= b_hierarchical_levels i <= 5 /\ 0 <= b_look_ahead_distance i <= 120 /\
   - 2 ^ 31 <= b_intra_period_length i < 2 ^ 31 - 1 /\
